@@ -4,6 +4,7 @@ package main
 
 import (
 	"fmt"
+	"go/token"
 	"go/types"
 	"sort"
 	"strings"
@@ -358,4 +359,350 @@ func c12Round3(c *Ctx) {
 		c.Check(len(applies) > 0 && bad == "", "R12m", "ApplyBinPatch success returns", p.Pos(fn.Pos()), fmt.Sprintf("%d Apply calls", len(applies)),
 			"ApplyBinPatch can return nil without PatchSet.Apply having run (return at "+bad+"): the destination is then never written - an output path different from the input keeps its old content or does not exist - while the command reports the file as signed")
 	}
+}
+
+// ------------------------------------------------------------------------------ R18h, R18i, R19h, R19i
+
+func c18Round3(c *Ctx) {
+	p := c.P
+	c.Rule("R18h", "a sector obtained from the allocator is entered into the allocation table on every path to a success return", 1)
+	nAlloc := 0
+	for _, fn := range p.pkgFuncs("lib/comdoc") {
+		nFn := 0
+		for _, ci := range p.callsIn(fn, "(*lib/comdoc.ComDoc).makeFreeSectors") {
+			list := ci.Value()
+			if list == nil {
+				continue
+			}
+			// single sectors taken out of the result: list[0]
+			for _, ref := range *list.Referrers() {
+				ia, ok := ref.(*ssa.IndexAddr)
+				if !ok {
+					continue
+				}
+				if _, isK := constInt(ia.Index); !isK {
+					continue
+				}
+				for _, r2 := range *ia.Referrers() {
+					ld, ok := r2.(*ssa.UnOp)
+					if !ok {
+						continue
+					}
+					nAlloc++
+					nFn++
+					key := fmt.Sprintf("%s sector#%d from the allocator is entered into its table", p.FName(fn), nFn)
+					c.Analysed(p.FName(fn))
+					short := false
+					if bv, isB := boolConst(ci.Common().Args[len(ci.Common().Args)-1]); isB {
+						short = bv
+					}
+					table := "f:lib/comdoc.ComDoc.SAT"
+					if short {
+						table = "f:lib/comdoc.ComDoc.SSAT"
+					}
+					del := map[edge]bool{}
+					sameBlock := false
+					for _, b := range fn.Blocks {
+						for _, in := range b.Instrs {
+							st, ok := in.(*ssa.Store)
+							if !ok {
+								continue
+							}
+							ia2, ok := st.Addr.(*ssa.IndexAddr)
+							if !ok || p.memKey(ia2) != table {
+								continue
+							}
+							if !dependsOn(ia2.Index, func(x ssa.Value) bool { return x == ssa.Value(ld) }) {
+								continue
+							}
+							if b == ld.Block() && instrIndex(st) > instrIndex(ld) {
+								sameBlock = true
+							}
+							for si := range b.Succs {
+								del[edge{b.Index, si}] = true
+							}
+						}
+					}
+					bad := ""
+					var path []string
+					if !sameBlock {
+						pred := map[int]int{}
+						seen := reachAfter(fn, ld, del, pred)
+						for _, r := range p.successReturns(fn) {
+							if seen[r.Block().Index] {
+								bad = p.Pos(r.Pos())
+								path = p.witness(fn, pred, r.Block().Index)
+							}
+						}
+					}
+					c.Check(bad == "", "R18h", key, p.Pos(ld.Pos()), "table entry stored on every path", "a sector taken from the free list reaches the return at "+bad+" without an entry having been stored for it in the allocation table: it is still marked free, the next allocation hands it out again, and two chains then share a sector", path...)
+				}
+			}
+		}
+	}
+	if nAlloc == 0 {
+		c.Undecided("R18h", "single-sector allocations", "-", "no makeFreeSectors(...)[k] found in lib/comdoc (writeShortSector had one)")
+	}
+
+	c.Rule("R18i", "the metadata member of the MSI tarball is digested on its own or skipped, never copied into the stream digest", 1)
+	if fn := p.Func("lib/authenticode.DigestMsiTar"); fn == nil {
+		c.Undecided("R18i", "authenticode.DigestMsiTar", "-", "function not found")
+	} else {
+		c.Analysed(p.FName(fn))
+		// the test for the metadata member
+		var tests []*ssa.BasicBlock
+		for _, b := range fn.Blocks {
+			ifi, ok := b.Instrs[len(b.Instrs)-1].(*ssa.If)
+			if !ok {
+				continue
+			}
+			bo, ok := ifi.Cond.(*ssa.BinOp)
+			if !ok || bo.Op != token.EQL {
+				continue
+			}
+			for _, side := range []ssa.Value{bo.X, bo.Y} {
+				if s, ok := constString(side); ok && s == "__exmeta" {
+					tests = append(tests, b)
+				}
+			}
+		}
+		copies := p.callsIn(fn, "io.Copy")
+		if len(tests) == 0 || len(copies) == 0 {
+			c.Undecided("R18i", "DigestMsiTar metadata member", p.Pos(fn.Pos()), fmt.Sprintf("%d tests for the __exmeta member, %d io.Copy calls", len(tests), len(copies)))
+		}
+		for i, tb := range tests {
+			// within the iteration: stop at the next tr.Next()
+			del := map[edge]bool{}
+			for _, b := range fn.Blocks {
+				stop := false
+				for _, in := range b.Instrs {
+					if ci, ok := in.(ssa.CallInstruction); ok {
+						switch p.calleeName(ci.Common()) {
+						case "(*archive/tar.Reader).Next", "io/ioutil.ReadAll", "io.ReadAll":
+							stop = true
+						}
+					}
+				}
+				if stop {
+					for _, pb := range b.Preds {
+						for si, s := range pb.Succs {
+							if s == b {
+								del[edge{pb.Index, si}] = true
+							}
+						}
+					}
+				}
+			}
+			seen := reach(fn, []*ssa.BasicBlock{tb.Succs[0]}, del, nil)
+			bad := false
+			for _, cp := range copies {
+				if seen[cp.Block().Index] {
+					bad = true
+				}
+			}
+			c.Check(!bad, "R18i", fmt.Sprintf("DigestMsiTar metadata member test#%d", i+1), p.Pos(lastPos(tb)), "read whole or skipped", "when the member is the metadata block the stream copy into the digest can still be reached without the member having been read on its own: with extended signatures off the metadata is hashed as if it were a stream, the tar digest differs from DigestMSI and the signed file fails verification")
+		}
+	}
+}
+
+func c19Round3(c *Ctx) {
+	p := c.P
+	c.Rule("R19h", "the canonical form handed to the digest is memory of its own, not a pooled buffer (shared with C14 R14e)", 0)
+	for _, f := range poolEscapes(p) {
+		c.Check(f.OK, "R19h", f.Key, f.Pos, "", f.Detail)
+	}
+	for _, f := range poolUseAfterPut(p) {
+		c.Check(f.OK, "R19h", f.Key, f.Pos, "", f.Detail)
+	}
+	c.runControl("R19h pooled memory also returned", "hasher).release", poolEscapes)
+
+	c.Rule("R19i", "issuerKeyHash is computed from the issuer's public key, not copied from a certificate extension", 1)
+	fn := p.Func("lib/appmanifest.PublisherIdentity")
+	if fn == nil {
+		c.Undecided("R19i", "appmanifest.PublisherIdentity", "-", "function not found")
+		return
+	}
+	c.Analysed(p.FName(fn))
+	n := 0
+	for _, r := range p.successReturns(fn) {
+		if len(r.Results) < 2 {
+			continue
+		}
+		n++
+		v := r.Results[1]
+		computed := dependsOn(v, func(x ssa.Value) bool {
+			call, ok := x.(*ssa.Call)
+			return ok && p.calleeName(call.Common()) == "lib/x509tools.SubjectKeyID"
+		})
+		copied := dependsOn(v, func(x ssa.Value) bool {
+			tn, f, _ := p.fieldLoad(x)
+			return strings.HasSuffix(tn, "crypto/x509.Certificate") && (f == "SubjectKeyId" || f == "AuthorityKeyId")
+		})
+		c.Check(computed && !copied, "R19i", fmt.Sprintf("PublisherIdentity issuerKeyHash#%d", n), p.Pos(r.Pos()), "SubjectKeyID(issuer.PublicKey)",
+			"the issuerKeyHash written into the manifest is (also) taken from the key identifier extension of a certificate: ClickOnce defines it as the SHA-1 of the issuer's public key, which an extension need not be (RFC 7093 identifiers, private schemes), so the publisher identity does not match the certificate chain although relic's own verifier, which does not look at it, accepts the manifest")
+	}
+	if n == 0 {
+		c.Undecided("R19i", "PublisherIdentity success returns", p.Pos(fn.Pos()), "none found")
+	}
+}
+
+// ------------------------------------------------------------------------------ R05n / R01j, R01i, R03i
+
+// pgpLengthThresholds: RFC 4880 4.2.2 - a new-format body length below 192 takes one octet,
+// below 8384 two octets (first octet 192..223), anything else five octets (255 + 4). First octets
+// 224..254 announce partial body lengths, so a two-octet form for a larger value is misread.
+func pgpLengthThresholds(p *Prog) (out []gFinding) {
+	fn := p.Func("lib/pgptools.serializeHeader")
+	if fn == nil {
+		return []gFinding{{Key: "pgptools.serializeHeader", Pos: "-", OK: false, Detail: "function not found"}}
+	}
+	var lenParam *ssa.Parameter
+	for _, pa := range fn.Params {
+		if pa.Name() == "length" || (lenParam == nil && intWidth(pa.Type()) > 0) {
+			if intWidth(pa.Type()) > 0 {
+				lenParam = pa
+			}
+		}
+	}
+	// the last integer parameter is the length
+	for _, pa := range fn.Params {
+		if intWidth(pa.Type()) > 0 {
+			lenParam = pa
+		}
+	}
+	if lenParam == nil {
+		return []gFinding{{Key: "pgptools.serializeHeader length parameter", Pos: p.Pos(fn.Pos()), OK: false, Detail: "no integer parameter"}}
+	}
+	bounds := map[int64]string{}
+	for _, b := range fn.Blocks {
+		for _, in := range b.Instrs {
+			bo, ok := in.(*ssa.BinOp)
+			if !ok {
+				continue
+			}
+			k, isK := constInt(bo.Y)
+			if !isK || stripConv(bo.X) != ssa.Value(lenParam) {
+				continue
+			}
+			switch bo.Op {
+			case token.LSS:
+				bounds[k] = p.Pos(bo.Pos())
+			case token.LEQ:
+				bounds[k+1] = p.Pos(bo.Pos())
+			case token.GEQ:
+				bounds[k] = p.Pos(bo.Pos())
+			case token.GTR:
+				bounds[k+1] = p.Pos(bo.Pos())
+			}
+		}
+	}
+	want := map[int64]string{192: "one octet below 192", 8384: "two octets below 8384"}
+	for k, what := range want {
+		_, ok := bounds[k]
+		out = append(out, gFinding{Key: "serializeHeader: " + what, Pos: p.Pos(fn.Pos()), OK: ok,
+			Detail: fmt.Sprintf("the packet length is not compared with %d (%s); thresholds found: %v. RFC 4880 4.2.2 reserves first octets 224..254 for partial body lengths, so a length encoded in the two-octet form beyond 8383 is read as a partial body by every OpenPGP parser", k, what, sortedKeysInt(bounds))})
+	}
+	for k, pos := range bounds {
+		if _, ok := want[k]; !ok {
+			out = append(out, gFinding{Key: fmt.Sprintf("serializeHeader: threshold %d", k), Pos: pos, OK: false, Detail: fmt.Sprintf("the packet length is compared with %d, which is not a boundary of the RFC 4880 length encoding (192, 8384)", k)})
+		}
+	}
+	return out
+}
+
+func sortedKeysInt(m map[int64]string) []int64 {
+	var ks []int64
+	for k := range m {
+		ks = append(ks, k)
+	}
+	sort.Slice(ks, func(i, j int) bool { return ks[i] < ks[j] })
+	return ks
+}
+
+// xarOffsetsRelocated: the loop that rewrites heap offsets in the TOC visits every data entry: an
+// iteration may leave the offset alone only because that very offset does not parse or is absent.
+func xarOffsetsRelocated(p *Prog) (out []gFinding) {
+	n := 0
+	for _, fn := range p.pkgFuncs("lib/fruit/xar") {
+		for _, ci := range p.callsIn(fn, "(*github.com/beevik/etree.Element).SetText") {
+			call, ok := ci.(*ssa.Call)
+			if !ok {
+				continue
+			}
+			// the new text is computed from an offset plus a shift
+			shifted := dependsOn(call.Call.Args[1], func(x ssa.Value) bool {
+				bo, ok := x.(*ssa.BinOp)
+				return ok && bo.Op == token.ADD
+			}) && dependsOn(call.Call.Args[1], func(x ssa.Value) bool {
+				c2, ok := x.(*ssa.Call)
+				return ok && p.calleeName(c2.Common()) == "strconv.ParseInt"
+			})
+			if !shifted {
+				continue
+			}
+			L, H := loopAround(fn, call.Block())
+			if H == nil {
+				continue
+			}
+			n++
+			key := fmt.Sprintf("%s relocates every data offset#%d", p.FName(fn), n)
+			// allowed ways round the SetText: tests of the parse error, of the offset element, of the shift
+			recv := call.Call.Args[0]
+			del := map[edge]bool{}
+			for bi := range L {
+				b := fn.Blocks[bi]
+				ifi, ok := b.Instrs[len(b.Instrs)-1].(*ssa.If)
+				if !ok {
+					continue
+				}
+				allowed := dependsOn(ifi.Cond, func(x ssa.Value) bool {
+					if x == recv {
+						return true
+					}
+					if ex, ok := x.(*ssa.Extract); ok && isErrorType(ex.Type()) {
+						if c2, ok := ex.Tuple.(*ssa.Call); ok && p.calleeName(c2.Common()) == "strconv.ParseInt" {
+							return true
+						}
+					}
+					if pa, ok := x.(*ssa.Parameter); ok && intWidth(pa.Type()) > 0 {
+						return true
+					}
+					return false
+				})
+				if allowed {
+					for si := range b.Succs {
+						del[edge{bi, si}] = true
+					}
+				}
+			}
+			// can the header be reached again from the header without passing the SetText block?
+			for _, pb := range call.Block().Preds {
+				for si, s := range pb.Succs {
+					if s == call.Block() {
+						del[edge{pb.Index, si}] = true
+					}
+				}
+			}
+			for bi := range L {
+				for si, s := range fn.Blocks[bi].Succs {
+					if !L[s.Index] {
+						del[edge{bi, si}] = true
+					}
+				}
+			}
+			var starts []*ssa.BasicBlock
+			for si, s := range H.Succs {
+				if !del[edge{H.Index, si}] && L[s.Index] {
+					starts = append(starts, s)
+				}
+			}
+			seen := reach(fn, starts, del, nil)
+			out = append(out, gFinding{Key: key, Pos: p.Pos(call.Pos()), OK: !seen[H.Index],
+				Detail: "an iteration over the data entries of the table of contents can go round without shifting that entry's heap offset for a reason other than the offset itself being absent or unparsable: the bytes of such a member move with the new signature but its recorded offset does not, so an independent reader extracts signature bytes for it"})
+		}
+	}
+	if n == 0 {
+		out = append(out, gFinding{Key: "xar offset relocation loop", Pos: "-", OK: false, Detail: "no loop rewriting offsets (SetText of a parsed offset plus a shift) found in lib/fruit/xar"})
+	}
+	return out
 }
